@@ -47,13 +47,15 @@ pub fn run_child(ctx: &mut Ctx) {
         let mut world_files: BTreeMap<MerkleHash, MDBFileInfo> = BTreeMap::new();
         let mut all_gen = Gen { cas: vec![], files: vec![] };
         let mut known = mdb_files(&dir);
+        let mut reg: Vec<(PathBuf, MerkleHash)> = Vec::new();   // shard files in registration order, with their HMAC key
+        let mut iso_checks = 0;
         let replay = format!("{{\"suite\":\"manager\",\"seed\":{},\"case\":{},\"minsize\":{},\"maxidx\":{}}}", ctx.seed, case_no, minsize, maxidx);
         let nsteps = rng.range(6, 30);
         // note new shard files written by the manager (size-triggered or explicit flush)
         macro_rules! note_flush { () => {{
             let now = mdb_files(&dir);
             let new: Vec<PathBuf> = now.difference(&known).cloned().collect();
-            for p in &new { let b = std::fs::read(p).unwrap(); let (o, l) = ctx.blob(&b); ops.push(format!("F:{o}:{l}")); outs.push("F:same".into()); }
+            for p in &new { let b = std::fs::read(p).unwrap(); let (o, l) = ctx.blob(&b); ops.push(format!("F:{o}:{l}")); outs.push("F:same".into()); reg.push((p.clone(), MerkleHash::default())); }
             known = now;
             new.len()
         }}; }
@@ -78,7 +80,7 @@ pub fn run_child(ctx: &mut Ctx) {
                     let mut mem = MDBInMemoryShard::default(); for c in &g.cas { mem.add_cas_block(c.clone()).unwrap(); } for f in &g.files { mem.add_file_reconstruction_info(f.clone()).unwrap(); }
                     let p = mem.write_to_directory(&side).unwrap(); let dest = dir.join(p.file_name().unwrap()); std::fs::copy(&p, &dest).unwrap();
                     rt.block_on(mgr.register_shards_by_path(&[&dest])).unwrap();
-                    let b = std::fs::read(&dest).unwrap(); let (o, l) = ctx.blob(&b); ops.push(format!("R:{o}:{l}")); outs.push("R".into()); known.insert(dest);
+                    let b = std::fs::read(&dest).unwrap(); let (o, l) = ctx.blob(&b); ops.push(format!("R:{o}:{l}")); outs.push("R".into()); reg.push((dest.clone(), MerkleHash::default())); known.insert(dest);
                     for c in g.cas { world_cas.insert(c.metadata.cas_hash, c.clone()); all_gen.cas.push(c); } for f in g.files { world_files.insert(f.metadata.file_hash, f.clone()); all_gen.files.push(f); } }
                 7 => { // keyed export of a shard that is NOT itself registered: dedup must work through the keyed form only
                     let (n1, n2) = (rng.range(1, 5) as usize, rng.range(0, 3) as usize);
@@ -89,7 +91,7 @@ pub fn run_child(ctx: &mut Ctx) {
                     let (fi, ci, ki) = (rng.chance(1, 2), rng.chance(1, 2), rng.chance(2, 3));
                     let ex = sf.export_as_keyed_shard(&dir, key, Duration::from_secs(3600), fi, ci, ki).unwrap();
                     rt.block_on(mgr.register_shards(&[ex.clone()])).unwrap();
-                    let b = std::fs::read(&ex.path).unwrap(); let (o, l) = ctx.blob(&b); ops.push(format!("R:{o}:{l}")); outs.push("R".into()); known.insert(ex.path.clone());
+                    let b = std::fs::read(&ex.path).unwrap(); let (o, l) = ctx.blob(&b); ops.push(format!("R:{o}:{l}")); outs.push("R".into()); reg.push((ex.path.clone(), key)); known.insert(ex.path.clone());
                     // C18 monitor: every run of the source shard is found through the keyed shard (no truncated collisions among its keys)
                     let keys: Vec<u64> = g.cas.iter().flat_map(|c| c.chunks.iter().map(|ch| ch.chunk_hash[0])).collect();
                     let uniq = keys.iter().collect::<BTreeSet<_>>().len() == keys.len();
@@ -106,6 +108,26 @@ pub fn run_child(ctx: &mut Ctx) {
                         if let Err(e) = truthful(&a, &q, &world_cas, None) { ctx.fail("C05", "manager-untruthful", format!("shard manager dedup answer not truthful: {e} (case {case_no})"), replay.clone()); }
                         ops.push(format!("q:{}", q.iter().map(|h| h.hex()).collect::<Vec<_>>().join(","))); outs.push(format!("q[{}]", answer_str(&a)));
                         ctx.stat(if a.is_some() { "query_hit" } else { "query_miss" });
+                        // C18 monitor (collections do not shadow each other): a query that the shards of ONE key alone answer is also
+                        // answered when shards under other keys are registered next to them (index cap out of play)
+                        if a.is_none() && maxidx >= (1 << 20) && iso_checks < 6 && reg.iter().map(|r| r.1).collect::<BTreeSet<_>>().len() > 1 {
+                            iso_checks += 1;
+                            for key in reg.iter().map(|r| r.1).collect::<BTreeSet<_>>() {
+                                let iso = tmp_root.join(format!("iso{case_no}-{iso_checks}-{}", &key.hex()[..8]));
+                                std::fs::create_dir_all(&iso).unwrap();
+                                let m1 = rt.block_on(ShardFileManager::new_in_session_directory(&iso)).unwrap();
+                                // (registered shards must live in the manager's own directory: copy them there, keep the order)
+                                let copies: Vec<PathBuf> = reg.iter().filter(|r| r.1 == key).map(|r| { let d = iso.join(r.0.file_name().unwrap()); std::fs::copy(&r.0, &d).unwrap(); d }).collect();
+                                // one at a time: a batch is re-ordered by modification time before it is registered
+                                for p in &copies { rt.block_on(m1.register_shards_by_path(&[p])).unwrap(); }
+                                let a1 = rt.block_on(m1.chunk_hash_dedup_query(&q)).unwrap();
+                                if a1.is_some() {
+                                    ctx.fail("C18", "other-collection-shadows-hit", format!("the shards under key {}.. alone answer the query {:?}, but with the shards of the other keys registered as well the manager answers not-found (case {case_no})", &key.hex()[..8], a1.as_ref().map(|x| (x.0, x.1.cas_hash.hex()))), replay.clone());
+                                }
+                                ctx.stat("isolated_collection_checks");
+                                let _ = std::fs::remove_dir_all(&iso);
+                            }
+                        }
                     }
                     if !world_files.is_empty() { let hs: Vec<MerkleHash> = world_files.keys().copied().collect(); let h = if rng.chance(3, 4) { *rng.pick(&hs) } else { rand_hash(&mut rng) };
                         match rt.block_on(mgr.get_file_reconstruction_info(&h)) {
